@@ -105,7 +105,7 @@ func startWorld(e *core.Env, ci int, s *sched, nat string, opt string) (*world, 
 		return nil, err
 	}
 	w.inst = inst
-	if !inst.WaitLogs("relay service listener", nsrv, 10*time.Second) {
+	if !inst.WaitLogs("relay service listener", nsrv, 40*time.Second) {
 		inst.Stop(10 * time.Second)
 		return nil, fmt.Errorf("listeners did not start: %v", inst.LogLines(8))
 	}
@@ -238,7 +238,7 @@ func lifecycleCase(e *core.Env, ci int, r *core.RNG, s *sched) {
 		for k, p := range peers {
 			p.Send(tgt(k, false), []byte(fmt.Sprintf("%s-%d", label, k)))
 		}
-		if !svx.Poll(8*time.Second, func() bool { return replies() >= before+len(peers) }) {
+		if !svx.Poll(30*time.Second, func() bool { return replies() >= before+len(peers) }) {
 			violate("datagram_or_reply_lost", "%s: only %d of %d replies arrived", label, replies()-before, len(peers))
 			return false
 		}
@@ -260,12 +260,12 @@ func lifecycleCase(e *core.Env, ci int, r *core.RNG, s *sched) {
 			violate("stop_waited_for_nat_timeout", "Stop consumed %v of virtual time (NAT timeout %v): it waited for a timer instead of in-flight work", sr.Virtual, nat)
 			return
 		}
-		okG := svx.Poll(5*time.Second, func() bool { return runtime.NumGoroutine() <= baseG })
+		okG := svx.Poll(20*time.Second, func() bool { return runtime.NumGoroutine() <= baseG })
 		if !okG {
 			violate("goroutine_leak", "%d goroutines after Stop, %d before start", runtime.NumGoroutine(), baseG)
 			return
 		}
-		okF := svx.Poll(3*time.Second, func() bool { return svx.OpenFDs(true) <= baseFD })
+		okF := svx.Poll(15*time.Second, func() bool { return svx.OpenFDs(true) <= baseFD })
 		if !okF {
 			violate("socket_leak", "%d sockets open after Stop, %d before start", svx.OpenFDs(true), baseFD)
 			return
@@ -325,7 +325,7 @@ func lifecycleCase(e *core.Env, ci int, r *core.RNG, s *sched) {
 		if s.C != "direct" {
 			want *= 2
 		}
-		if !w.inst.WaitLogs("Finished relay serverConn <- natConn", want, 8*time.Second) {
+		if !w.inst.WaitLogs("Finished relay serverConn <- natConn", want, 30*time.Second) {
 			violate("not_evicted", "only %d of %d sessions were torn down %v after the last client packet", w.inst.CountLogs("Finished relay serverConn <- natConn"), want, nat+time.Second)
 			return
 		}
@@ -409,7 +409,7 @@ func lifecycleCase(e *core.Env, ci int, r *core.RNG, s *sched) {
 		for k, p := range peers {
 			p.Send(tgt(k, false), []byte("hook"))
 		}
-		hookReached = svx.Poll(3*time.Second, func() bool { return held.Load() == 1 })
+		hookReached = svx.Poll(15*time.Second, func() bool { return held.Load() == 1 })
 		go func() {
 			// let Stop run against the paused goroutine (it must have passed its session-table sweep), then resume it
 			vtime.RealSleep(300 * time.Millisecond)
@@ -434,7 +434,7 @@ func lifecycleCase(e *core.Env, ci int, r *core.RNG, s *sched) {
 		if s.Phase == "init-upstream-refused" {
 			msg = "Failed to create new UDP client session"
 		}
-		if !w.inst.WaitLogs(msg, 1, 5*time.Second) {
+		if !w.inst.WaitLogs(msg, 1, 20*time.Second) {
 			violate("init_failure_not_reported", "expected %q in the log", msg)
 			return
 		}
